@@ -385,7 +385,7 @@ def _comp_drawPoints(ex, st, self, args, kwargs, node):
     st.assume(z3.Implies(z3.And(included, empty), z3.Length(new) == 0))
     comps = ex.read_field(st, G, "components")
     cs = lift(comps)
-    app = z3.Concat(cs, new)
+    app = _pos_seq(st, comps.ty, z3.Length(cs) + z3.Length(new), lambda p: z3.If(p < z3.Length(cs), cs[p], new[p - z3.Length(cs)]), "appended")
     ex.write_field(st, G, "components", Val(comps.ty, app), node)
     cnt = z3.Int(fresh_name("ncont"))
     st.assume(cnt >= 0)
@@ -466,6 +466,12 @@ contract(
         "F1": (Map(Ref("SXGlyph"), INT), "glyph.frame_ncontours"),
     },
     ghost={"glyph.removeComponent(component)": ["wN = wN + [len(glyph.components) - len(K) + i]"]},
+    # stepping stones between the two list edits of an iteration (proved, then assumed)
+    hints={"component.drawPoints(pen)": [
+        "glyph.components[0] == component and len(glyph.components) >= len(K) - i",
+        "implies(component.baseGlyph not in include, glyph.components[len(glyph.components) - 1].baseGlyph == component.baseGlyph"
+        " and glyph.components[len(glyph.components) - 1].transformation == component.transformation and len(glyph.components) > len(K) - i)",
+    ]},
     loops={
         "for component in list(glyph.components)": Loop(
             index="i", seq="K",
